@@ -111,6 +111,13 @@ pub open spec fn common_gram(r: &Record, query: &TextRef) -> bool {
 pub open spec fn rec_prefix(r: &Record, query: &TextRef, w: int) -> bool {
     0 <= w < r.title.words@.len() && query.words@.len() >= 1 && !query.words@[0].fin && starts_with(word_chars(r.title.words@, r.title.chars@, w), tchars(query, 0))
 }
+// C04: the (first) query word is still being typed and is one explicit edit away from word w of the record's title (>= 5 characters,
+// three of them different)
+pub open spec fn rec_edit1(r: &Record, query: &TextRef, w: int, p: int) -> bool {
+    let rc = word_chars(r.title.words@, r.title.chars@, w); let qc = tchars(query, 0);
+    0 <= w < r.title.words@.len() && query.words@.len() >= 1 && !query.words@[0].fin && rc.len() >= 5 && three_letters(rc)
+    && (is_sub(rc, qc, p) || is_ins(rc, qc, p) || is_del(rc, qc, p) || is_trans(rc, qc, p))
+}
 // a well-formed text satisfies the index's size requirement: the word lengths add up to at most the text length
 proof fn lemma_text_ok(t: &TextRef, n: int)
     requires text_wf(t), 0 <= n <= t.words@.len(),
@@ -192,6 +199,71 @@ proof fn lemma_search_c03(st: &Store, query: &TextRef, ixs: Seq<usize>, hs: Seq<
         }
     }
 }
+// shared core of the two recall lemmas: a record whose title shares a gram with the one-word query and whose hit has a match is returned
+proof fn lemma_search_recall(st: &Store, query: &TextRef, ixs: Seq<usize>, hs: Seq<Hit>, pos: Seq<int>, out: Seq<SearchResult>, j: int)
+    requires st.srch_ok(), text_wf(query), cand_src(ixs, st, query), trace_ok(ixs, hs, st.records@, query),
+        sel_ok(out, hs, pos, query, st.dividers.0@, st.dividers.1@),
+        hs.filter(passes(query)).len() <= st.limit ==> forall|i: int| 0 <= i < hs.len() && hm_spec(query, &#[trigger] hs[i]) ==> pos.contains(i),
+        st.records@.len() <= st.limit, query.words@.len() == 1, 0 <= j < st.records@.len(),
+        common_gram(&st.records@[j], query),
+        forall|i: int| 0 <= i < hs.len() && ixs[i] == j as usize ==> (#[trigger] hs[i]).rmatches@.len() >= 1,
+    ensures exists|k: int| 0 <= k < out.len() && (#[trigger] out[k]).id == st.records@[j].id,
+{
+    let recs = st.records@;
+    lemma_filter_len(hs, passes(query));
+    lemma_distinct_bounded(ixs, recs.len() as int);
+    let r = &recs[j];
+    let g = choose|g: [char; 3]| #[trigger] has_gram(r.title.words@, r.title.chars@, g@) && has_gram(query.words@, query.chars@, g@);
+    assert(posted(st.index.dict@, g, j));
+    assert(shares(st.index.dict@, query.words@, query.chars@, j));
+    assert(ixs.contains(j as usize));
+    let i = choose|i: int| 0 <= i < ixs.len() && ixs[i] == j as usize;
+    assert(scored(hs[i], &recs[j], query));
+    assert(hm_spec(query, &hs[i]));
+    assert(pos.contains(i));
+    let k = choose|k: int| 0 <= k < pos.len() && pos[k] == i;
+    assert(out[k].id == hs[i].id);
+}
+// C04 at the level of Store::search: gram law G-edit1, index content, candidate completeness, TM-some for one-edit pairs (scored),
+// the one-word filter rule, full coverage
+proof fn lemma_search_c04(st: &Store, query: &TextRef, ixs: Seq<usize>, hs: Seq<Hit>, pos: Seq<int>, out: Seq<SearchResult>)
+    requires st.srch_ok(), text_wf(query), cand_src(ixs, st, query), trace_ok(ixs, hs, st.records@, query),
+        sel_ok(out, hs, pos, query, st.dividers.0@, st.dividers.1@),
+        hs.filter(passes(query)).len() <= st.limit ==> forall|i: int| 0 <= i < hs.len() && hm_spec(query, &#[trigger] hs[i]) ==> pos.contains(i),
+    ensures st.records@.len() <= st.limit && query.words@.len() == 1 ==> forall|j: int, w: int, p: int| 0 <= j < st.records@.len() && #[trigger] rec_edit1(&st.records@[j], query, w, p)
+                ==> exists|k: int| 0 <= k < out.len() && (#[trigger] out[k]).id == st.records@[j].id,
+{
+    let recs = st.records@;
+    if recs.len() <= st.limit && query.words@.len() == 1 {
+        assert forall|j: int, w: int, p: int| 0 <= j < recs.len() && #[trigger] rec_edit1(&recs[j], query, w, p) implies exists|k: int| 0 <= k < out.len() && (#[trigger] out[k]).id == recs[j].id by {
+            let r = &recs[j];
+            let qc = tchars(query, 0); let rc = word_chars(r.title.words@, r.title.chars@, w);
+            assert(query.words@[0].slice.0 < query.words@[0].slice.1);
+            assert(qc == word_chars(query.words@, query.chars@, 0));
+            assert(record_ok(r));
+            // G-edit1: the two words share a gram
+            if is_sub(rc, qc, p) { lemma_gram_sub(rc, qc, p); }
+            else if is_ins(rc, qc, p) { lemma_gram_ins(rc, qc, p); }
+            else if is_del(rc, qc, p) { lemma_gram_del(rc, qc, p); }
+            else { lemma_gram_trans(rc, qc, p); }
+            lemma_shares_sym(rc, qc);
+            lemma_common_gram(query.words@, query.chars@, 0, r.title.words@, r.title.chars@, w);
+            assert forall|i: int| 0 <= i < hs.len() && ixs[i] == j as usize implies (#[trigger] hs[i]).rmatches@.len() >= 1 by {
+                assert(scored(hs[i], &recs[j], query));
+                assert(tchars(&hs[i].title, w) == rc);
+                assert(pair_edit1(&hs[i].title, query, w, p));
+            }
+            lemma_search_recall(st, query, ixs, hs, pos, out, j);
+        }
+    }
+}
+proof fn lemma_shares_sym(a: Seq<char>, b: Seq<char>)
+    requires shares_gram(a, b)
+    ensures shares_gram(b, a)
+{
+    let (i, j) = choose|i: int, j: int| 0 <= i < gram_list(a).len() && 0 <= j < gram_list(b).len() && #[trigger] gram_list(a)[i] == #[trigger] gram_list(b)[j];
+    assert(gram_list(b)[j] == gram_list(a)[i]);
+}
 proof fn lemma_filter_len<T>(s: Seq<T>, p: spec_fn(T) -> bool)
     ensures s.filter(p).len() <= s.len()
     decreases s.len()
@@ -250,6 +322,10 @@ impl Store {
             // the single query word being typed is among the hits
             self.records@.len() <= self.limit && query.words@.len() == 1 ==> forall|j: int, w: int| 0 <= j < self.records@.len() && #[trigger] rec_prefix(&self.records@[j], query, w)
                 ==> exists|k: int| 0 <= k < ret@.len() && (#[trigger] ret@[k]).id == self.records@[j].id, // [C03]
+            // C04 (one typo, modulo the tokeniser): likewise when the single query word is one edit away from a title word of at least
+            // five characters, three of them different
+            self.records@.len() <= self.limit && query.words@.len() == 1 ==> forall|j: int, w: int, p: int| 0 <= j < self.records@.len() && #[trigger] rec_edit1(&self.records@[j], query, w, p)
+                ==> exists|k: int| 0 <= k < ret@.len() && (#[trigger] ret@[k]).id == self.records@[j].id, // [C04]
             // C12: a query without words returns min(limit, number of records) entries
             query.words@.len() == 0 ==> ret@.len() == (if self.records@.len() < self.limit { self.records@.len() } else { self.limit as nat }), // [C12]
     {
@@ -367,6 +443,7 @@ impl Store {
             }
             // C03
             lemma_search_c03(self, query, ixs@, hs, pos, __out0@);
+            lemma_search_c04(self, query, ixs@, hs, pos, __out0@);
         }
         __out0
     }
